@@ -27,9 +27,9 @@ PREDICATES1 = ["all_equals_zero", "any_equals_zero", "all_greater_than_zero", "a
 
 
 def gen_cases(tier, seed):
-    n = 48 if tier == "quick" else 480
-    cases = [{"kind": "sequence", "gen_seed": seed * 65537 + k, "steps": 120 if tier == "quick" else 300, "id": "seq#%d" % k} for k in range(n)]
-    cases += [{"kind": "predicates", "gen_seed": seed * 257 + k, "examples": 60 if tier == "quick" else 200, "id": "pred#%d" % k} for k in range(8 if tier == "quick" else 40)]
+    n = 48 if tier == "quick" else 4000
+    cases = [{"kind": "sequence", "gen_seed": seed * 65537 + k, "steps": 120 if tier == "quick" else (300 if k % 4 else 1200), "id": "seq#%d" % k} for k in range(n)]
+    cases += [{"kind": "predicates", "gen_seed": seed * 257 + k, "examples": 60 if tier == "quick" else 200, "id": "pred#%d" % k} for k in range(8 if tier == "quick" else 160)]
     return cases
 
 
